@@ -21,6 +21,8 @@ const prelude = `(declare-sort Str 0)
 (assert (= (gs.len gs.empty) 0))
 (assert (forall ((s Str)) (! (>= (gs.len s) 0) :pattern ((gs.len s)))))
 (assert (forall ((s Str) (i Int)) (! (and (<= 0 (gs.at s i)) (<= (gs.at s i) 255)) :pattern ((gs.at s i)))))
+(declare-fun gs.arr (Str) (Array Int Int))
+(assert (forall ((s Str) (i Int)) (! (= (select (gs.arr s) i) (gs.at s i)) :pattern ((select (gs.arr s) i)))))
 (declare-fun flt.zero () Flt)
 (declare-fun flt.add (Flt Flt) Flt)
 (declare-fun flt.sub (Flt Flt) Flt)
@@ -169,6 +171,7 @@ func VerifyFunction(P *Program, C *Contracts, fn *ssa.Function, fc *FuncContract
 	ws := newWriteSet()
 	e.recorders = append(e.recorders, ws)
 	if fc != nil {
+		e.assumeLemmas(fc.Uses)
 		env := e.baseEnv(fr, st)
 		env.curFunc = fc.Name
 		for _, r := range fc.Requires {
